@@ -19,8 +19,7 @@ var errConstructingCelContext = errors.New("constructing CEL context")
 
 // Runs a go-template transformer on all .gotmpl files.
 func RenderTemplates(_ context.Context, pkg *packagetypes.Package, tmplCtx packagetypes.PackageRenderContext) error {
-	tctx, err := templateContext(tmplCtx)
-	if err != nil {
+	if _, err := templateContext(tmplCtx); err != nil {
 		return err
 	}
 
@@ -55,6 +54,14 @@ func RenderTemplates(_ context.Context, pkg *packagetypes.Package, tmplCtx packa
 		if !packagetypes.IsTemplateFile(path) {
 			// Not a template file, skip.
 			continue
+		}
+
+		// Every template is executed with its own copy of the context: template functions like
+		// set, unset or merge modify maps in place, with a shared context such a change would leak
+		// into the templates executed afterwards - in map iteration order.
+		tctx, err := templateContext(tmplCtx)
+		if err != nil {
+			return err
 		}
 
 		var buf bytes.Buffer
